@@ -31,6 +31,11 @@ def run(ctx):
                            ORDERS={"11"}, EWS={"g1"} if q else {"g1", "g2"}, CKMS={"generic"} if q else {"generic", "unitary"})
     insts += relcheck.emit(ctx, RELS, PROCS={"NC", "CC"}, PROJS={"e-", "nu"}, KINDS={"F2", "F3"} if q else {"F2", "FL", "F3", "g1", "g4"},
                            FLAVS={"total"}, SCHEMES={"ZM5"} if q else {"ZM5", "FFNS3", "FFN03"}, ORDERS={"22"})
+    # charged currents on the asymptotic path (FFN0 / FONLL-FFN0 build their heavy kernels in a module of their own: the beam sign
+    # of the gluon and singlet weights has to arrive there as well)
+    insts += relcheck.emit(ctx, ["ChargeConjugation", "LeptonAsNeutrino"], PROCS={"CC"}, PROJS={"e-", "nu"}, KINDS={"F2", "F3"} if q else {"F2", "FL", "F3"},
+                           FLAVS={"charm", "total"}, SCHEMES={"FFN03", "FONLL04"} if q else {"FFN03", "FFN04", "FONLL03", "FONLL04"}, ORDERS={"11"},
+                           CKMS={"generic"})
     # the symmetries on a nuclear target (the isospin rotation acts on quark AND antiquark weights of every kernel)
     insts += relcheck.emit(ctx, ["ChargeConjugation", "LeptonAsNeutrino", "PositronFlip"], PROCS={"NC", "CC"}, PROJS={"e-", "nu"},
                            KINDS={"F2", "F3"}, FLAVS={"charm", "total"} if q else {"light", "charm", "bottom", "total"},
